@@ -274,6 +274,37 @@ def run(ck, prog, ctx):
                 ck.undecided("DOM", "%s/%s/by-splitter" % (name, lab_), "%s matches the number of sections %s returned against the version: the offset-based rules (consumed == length per success value, version-gated section reads) do not apply to this form" % (name, hb.short), where=b.where(ct.line))
             ctx.setdefault("c08_splitter", True)
             continue
+        rd_ = codec.ontology_reader(prog) if name == "Ontology::from_bytes" else None
+        if rd_ is not None and rd_["stream"] and rd_["body"] is not b:
+            # stream form: from_bytes hands its slice to a method that pulls the data out of an `std::io::Read`.  There is no consumed offset to
+            # compare with a length; what takes its place, and IS decided: no read may come back short unnoticed.  `read_exact` reports a short
+            # read itself; the count that `read` / `read_to_end` answer must reach a comparison (`take(len).read_to_end(..)` stops quietly at
+            # the end of the data: a file cut inside the last section would load as a smaller ontology).
+            from engines import private_scope as _ps8
+            rb_ = rd_["body"]
+            n_reads = 0
+            for xb_ in _ps8(prog, rb_):
+                for rbi, rt in xb_.calls():
+                    if (rt.callee.trait or "") != "std::io::Read" or rt.callee.method not in ("read", "read_to_end", "read_to_string", "read_buf"):
+                        continue
+                    n_reads += 1
+                    used = False
+                    if rt.dest is not None and rt.dest.is_local():
+                        for sb_ in sorted(xb_.reach):
+                            for st_ in xb_.blocks[sb_].stmts:
+                                if st_.k == "assign" and st_.rv["k"] == "bin" and st_.rv["op"] in ("Eq", "Ne", "Lt", "Le", "Gt", "Ge") and any(
+                                        a[0] == "call" and a[3] == xb_.id and a[4] == rbi for o_ in (st_.rv["l"], st_.rv["r"]) for a in pvn.of_operand(xb_, o_)):
+                                    used = True
+                            x_ = xb_.blocks[sb_].term
+                            if x_.k == "switch" and x_.discr.place is not None and ((x_.discr.place.is_local() and xb_.locals[x_.discr.place.local]["s"] in ("usize", "u64")) or [e for e in x_.discr.place.fields() if e != "*" and e[0] == "f"]) and any(a[0] == "call" and a[3] == xb_.id and a[4] == rbi for a in pvn.of_operand(xb_, x_.discr)):
+                                used = True  # `match reader.read(..) { Ok(0) => .. }`: the count itself is switched on (not the Result's discriminant)
+                            if x_.k == "call" and x_.callee.method in ("eq", "ne", "cmp", "partial_cmp", "lt", "le", "gt", "ge") and any(a[0] == "call" and a[3] == xb_.id and a[4] == rbi for o_ in x_.args for a in pvn.of_operand(xb_, o_)):
+                                used = True
+                    ck.ob("DOM", "%s/stream/%s/%s/count-inspected" % (name, xb_.short, rt.callee.method), used, "%s: the number of bytes that `%s` delivered %s" % (xb_.short, rt.callee.method, "is compared before the data is used" if used else "is NEVER inspected: a read that ends early (the file is shorter than a section announces) goes unnoticed and the truncated section is decoded as if it were complete"), where=xb_.where(rt.line))
+            for lab_ in ("success", "sections"):
+                ck.undecided("DOM", "%s/%s/by-stream" % (name, lab_), "%s hands its input to %s, which reads from an std::io::Read (%d counted reads examined): the offset-based rules (consumed == length per success value) do not apply to this form" % (name, rb_.short, n_reads), where=b.where())
+            ctx.setdefault("c08_splitter", True)
+            continue
         succ = success_sites(b)
         if not succ:
             ck.undecided("DOM", name + "/success", "no success value recognised", where=b.where())
@@ -321,7 +352,7 @@ def run(ck, prog, ctx):
     ck.floor("DOM", "record readers examined for their end test", n_end, 3)
 
     # ------------------------------------------------------------------ DISPATCH: version-gated sections
-    fb = prog.body(codec.ONT + "from_bytes")
+    fb = codec.ontology_reader(prog)["body"]
     if fb is not None and ctx.get("c08_splitter"):
         ck.undecided("DISPATCH", "sections/by-splitter", "from_bytes matches the sections a splitter returned against the version with slice patterns: which section exists for which version is decided by their number, not by version guards around the reads", where=fb.where())
         fb = None
